@@ -270,6 +270,51 @@ def run (P : Params) (srv : Server) : CState → List Conn → CState × Res
     | (st', some r) => (st', r)
     | (st', none) => run P srv st' cs
 
+/-! ## a log that grows while the client is streaming -/
+
+/-- The scripted connections, each paired with the run's log (and handler status) as the server
+knows it by the time that connection ends: events appended between two connections, or while a
+connection is open, show up in the later snapshot.  `run` is the special case of one constant
+snapshot. -/
+def runLive (P : Params) : CState → List (Server × Conn) → CState × Res
+  | st, [] => (st, .more)
+  | st, (srv, c) :: cs =>
+    match connect P st (respFor srv st c) c.fault with
+    | (st', some r) => (st', r)
+    | (st', none) => runLive P st' cs
+
+/-! ## the client's own line iterator, chunk by chunk -/
+
+/-- `_iter_sse_lines`, one pass of `async for text in response.aiter_text()`:
+`buffer += text; *lines, buffer = buffer.split(sep)` -- the complete lines are yielded, the
+unterminated rest is kept -/
+def feedChunk (brk : Char → Bool) (buffer text : List Char) : List (List Char) × List Char :=
+  splitLines brk (buffer ++ text)
+
+/-- all the lines yielded while the chunks arrive, and the buffer that is left -/
+def iterLines (brk : Char → Bool) : List Char → List (List Char) → List (List Char) × List Char
+  | buffer, [] => ([], buffer)
+  | buffer, text :: rest =>
+    let r := feedChunk brk buffer text
+    let r' := iterLines brk r.2 rest
+    (r.1 ++ r'.1, r'.2)
+
+/-- what the frame parser is fed from one connection whose decoded text arrived in `chunks`:
+the trailing `if buffer: yield buffer` runs only when `aiter_text` ends without an exception -/
+def chunkedLines (brk : Char → Bool) (eof : Bool) (chunks : List (List Char)) : List (List Char) :=
+  let r := iterLines brk [] chunks
+  if eof && !r.2.isEmpty then r.1 ++ [r.2] else r.1
+
+/-! ## the two ends of the cursor -/
+
+/-- Python `str(n)` of an `int`: what the reader sends as `after_sequence` -/
+def pyStr (n : Int) : List Char := if n < 0 then '-' :: decimal n.natAbs else decimal n.natAbs
+
+/-- `EventStream._iterate`: `self._last_sequence = item.sequence` right before `yield item.event`;
+`last_sequence` as the consumer reads it once `k` items have been yielded -/
+def streamLast (init : Int) (queued : List (Int × List Char)) (k : Nat) : Int :=
+  ((queued.take k).getLast?.map (·.1)).getD init
+
 /-! ## what should come out -/
 
 /-- events after `c0` through the first terminal one -/
